@@ -12,7 +12,8 @@ RULE = ("(a) connection part: scripted connections of 1..3 requests with Pending
         "before scheduling step k for every k = 1..K+2 (before the first read, between requests, during the preamble, during the handler, during "
         "close), plus idle connections (the client sends nothing more) that must be woken by the shutdown; (b) wait-group part: wg_run histories with "
         "0..4 tokens and the last token drop forced into every window of WaitGroupFuture::poll (before the upgrade, between upgrade and waker "
-        "registration, between registration and the drop of the temporary reference, after the poll) through the cfg(fastcgi_server_verif) hook. "
+        "registration, between registration and the drop of the temporary reference, after the poll) through the cfg(fastcgi_server_verif) hook; (c) wg_race: real two-thread races of one poll against the last drop, "
+        "10^5 trials each with the timing steered towards coincidence (a supporting search with a sound oracle: it can miss, it cannot raise a false alarm). "
         "Oracle: every started request is completed with its EndRequest, no handler starts in a scheduling step >= k, the task returns, the shutdown "
         "future is not ready while a token lives and ready (with a wake) afterwards. Non-trivial: every case; distinct = distinct case lines.")
 ASSUMPTIONS = C07.ASSUMPTIONS + ["Arc/Weak/AtomicWaker are modelled by their documented atomic behaviour; the hook only adds scheduling points"]
@@ -64,6 +65,10 @@ def wg_cases(rng, tier):
                 live += 1 if live else 0
         ops.append(10)
         yield case("wg_run", [tokens], ops), ["wg", "wg-last-in-window" if any(o > 10 for o in ops) else "wg-plain"]
+    # real two-thread races of the poll against the last drop: a supporting search for windows inside WaitGroupFuture::poll that the
+    # deterministic hook points do not cover (it can miss; its oracle is sound)
+    for i in range(3 if tier == "quick" else 12):
+        yield case("wg_race", [100000 + i if tier == "quick" else 600000 + i]), ["wg-race"]
 
 
 def nontrivial(line, tags):
@@ -71,7 +76,7 @@ def nontrivial(line, tags):
 
 
 def min_classes(tier):
-    return {"shutdown": 1000, "idle": 300, "wg": 150, "wg-last-in-window": 60}
+    return {"shutdown": 1000, "idle": 300, "wg": 150, "wg-last-in-window": 60, "wg-race": 3}
 
 
 def oracle(line, impl_line):
@@ -79,6 +84,9 @@ def oracle(line, impl_line):
     o = parse_out(impl_line)
     if o is None or o[0] == [18446744073710440504]:
         return "crashed or panicked"
+    if mode == "wg_race":
+        return True if o == [[0]] else ("a wake-up was lost in a real two-thread race: the shutdown future returned Pending, the last token was "
+                                         "dropped, and the waker it registered was never woken")
     if mode == "wg_run":
         # one row [ready, total wakes, live tokens after] per poll, until the first Ready
         live = a[0][0] if a and a[0] else 0
